@@ -247,12 +247,12 @@ func ruleEScopeChain(p *Program, r *Reporter) {
 		switch {
 		case sig.Results().Len() == 1 && types.Identical(sig.Results().At(0).Type(), d.scopeT):
 			push = fn
-		case sig.Params().Len() == 1 && sig.Results().Len() == 2 && isBoolType(sig.Results().At(1).Type()):
+		case sig.Params().Len() == 1 && sig.Results().Len() == 2 && (isBoolType(sig.Results().At(1).Type()) || isErrorType(sig.Results().At(1).Type()) && !isErrorType(sig.Results().At(0).Type())):
 			lookup = fn
 		}
 	}
 	if lookup == nil || push == nil {
-		r.Unknown(token.NoPos, "scope methods", "the scope type has no (name) (value, bool) lookup method or no method returning a new scope")
+		r.Unknown(token.NoPos, "scope methods", "the scope type has no (name) (value, bool) or (name) (value, error) lookup method, or no method returning a new scope")
 		return
 	}
 	// lookup over a chain of two scopes, then over the nil scope
@@ -309,7 +309,19 @@ func ruleEScopeChain(p *Program, r *Reporter) {
 				}
 				cs = append(cs, k)
 			}
-			lines[strings.Join(cs, ",")+" => "+avKey(o.Res[0])+","+avKey(o.Res[1])] = true
+			second := avKey(o.Res[1])
+			if isErrorType(lookup.Signature.Results().At(1).Type()) {
+				// absence reported by an error: nil is "present", the undefined-variable error "absent"
+				switch {
+				case isDefNil(o.Res[1]):
+					second = "true"
+				case dynName(o.Res[1]) == "UndefinedVariableError":
+					second = "false"
+				default:
+					second = "error " + dynName(o.Res[1])
+				}
+			}
+			lines[strings.Join(cs, ",")+" => "+avKey(o.Res[0])+","+second] = true
 		}
 		return lines, ""
 	}
